@@ -16,15 +16,18 @@
 (*    with one of those values.                                              *)
 (*  - likewise "drop_send" is logged after the Terminate messages went out: *)
 (*    a worker's Terminate "w_recv" may precede it (dropEarly).              *)
+(*  - "acc_decide" is logged after the new worker thread has been spawned:   *)
+(*    that worker's first "w_recv" may precede it (grewEarly): TWRecvNew      *)
+(*    composes the growth, the late "acc_decide" only checks the pool size.  *)
 (*  - jobs are not identified at dequeue (log order of two "w_recv" may      *)
 (*    differ from channel order): the trace binds job ids at job_start.      *)
 EXTENDS Pool, Json, IOUtils
 
 Rec == ndJsonDeserialize(IOEnv.TRACE)
 
-VARIABLES l, sentEarly, dropEarly, unc, maxNow, njobsNow, started
+VARIABLES l, sentEarly, dropEarly, unc, maxNow, njobsNow, started, grewEarly
 
-tvars == <<pvars, l, sentEarly, dropEarly, unc, maxNow, njobsNow, started>>
+tvars == <<pvars, l, sentEarly, dropEarly, unc, maxNow, njobsNow, started, grewEarly>>
 
 Ev == Rec[l]
 IsEv(e) == l <= Len(Rec) /\ Ev.ev = e /\ l' = l + 1
@@ -39,33 +42,51 @@ TReset ==
   /\ wjob' = [w \in Wids |-> 0]
   /\ apc' = "idle" /\ nextJob' = 1 /\ mayFinish' = {} /\ served' = {} /\ doneJobs' = {}
   /\ sentEarly' = FALSE /\ dropEarly' = FALSE /\ unc' = 0 /\ maxNow' = Ev.max /\ njobsNow' = Ev.njobs /\ started' = {}
+  /\ grewEarly' = FALSE
 
 TAccCount ==
   /\ IsEv("acc_count")
   /\ apc = "idle"
   /\ ctr' = ctr + 1 /\ ctr' = Ev.a /\ workers = Ev.b
   /\ apc' = "counted" /\ unc' = 0
-  /\ UNCHANGED <<workers, queue, wst, wjob, nextJob, mayFinish, served, doneJobs, sentEarly, dropEarly, maxNow, njobsNow, started>>
+  /\ UNCHANGED <<workers, queue, wst, wjob, nextJob, mayFinish, served, doneJobs, sentEarly, dropEarly, maxNow, njobsNow, started, grewEarly>>
 
 TAccSend ==
   /\ IsEv("acc_send")
   /\ apc = "counted"
   /\ IF sentEarly THEN UNCHANGED queue ELSE queue' = Append(queue, nextJob)
   /\ apc' = "sent" /\ sentEarly' = FALSE
-  /\ UNCHANGED <<workers, ctr, wst, wjob, nextJob, mayFinish, served, doneJobs, dropEarly, unc, maxNow, njobsNow, started>>
+  /\ UNCHANGED <<workers, ctr, wst, wjob, nextJob, mayFinish, served, doneJobs, dropEarly, unc, maxNow, njobsNow, started, grewEarly>>
 
 GrowWith(c) == c > workers /\ workers < maxNow
 
 TAccDecide ==
   /\ IsEv("acc_decide")
   /\ apc = "sent"
-  /\ \E k \in 0..unc :
-       IF GrowWith(ctr + k)
-       THEN /\ Ev.b = workers + 1 /\ workers' = workers + 1
-            /\ wst' = [wst EXCEPT ![workers + 1] = "recv"]
-       ELSE /\ Ev.b = workers /\ UNCHANGED <<workers, wst>>
-  /\ apc' = "idle" /\ nextJob' = nextJob + 1
+  /\ IF grewEarly
+     THEN \* the growth was composed when the new worker's first event arrived
+          /\ Ev.b = workers /\ UNCHANGED <<workers, wst>>
+     ELSE \E k \in 0..unc :
+            IF GrowWith(ctr + k)
+            THEN /\ Ev.b = workers + 1 /\ workers' = workers + 1
+                 /\ wst' = [wst EXCEPT ![workers + 1] = "recv"]
+            ELSE /\ Ev.b = workers /\ UNCHANGED <<workers, wst>>
+  /\ apc' = "idle" /\ nextJob' = nextJob + 1 /\ grewEarly' = FALSE
   /\ UNCHANGED <<ctr, queue, wjob, mayFinish, served, doneJobs, sentEarly, dropEarly, unc, maxNow, njobsNow, started>>
+
+\* the worker spawned by the decision that is not logged yet dequeues a job
+TWRecvNew ==
+  /\ IsEv("w_recv")
+  /\ apc = "sent" /\ ~grewEarly
+  /\ Ev.w = workers + 1 /\ Ev.a = 1
+  /\ \E k \in 0..unc : GrowWith(ctr + k)
+  /\ \E i \in 1..Len(queue) :
+       /\ queue[i] # 0
+       /\ queue' = SubSeq(queue, 1, i - 1) \o SubSeq(queue, i + 1, Len(queue))
+       /\ wst' = [wst EXCEPT ![workers + 1] = "ready"]
+       /\ wjob' = [wjob EXCEPT ![workers + 1] = queue[i]]
+  /\ workers' = workers + 1 /\ grewEarly' = TRUE
+  /\ UNCHANGED <<ctr, apc, nextJob, mayFinish, served, doneJobs, sentEarly, dropEarly, unc, maxNow, njobsNow, started>>
 
 \* a worker dequeues: a job (a = 1) or a Terminate (a = 0)
 TWRecv ==
@@ -91,7 +112,7 @@ TWRecv ==
            /\ queue' = queue \o [i \in 1..(workers - 1) |-> 0]
            /\ wst' = [wst EXCEPT ![w] = "dead"] /\ UNCHANGED wjob
            /\ dropEarly' = TRUE /\ UNCHANGED sentEarly
-  /\ UNCHANGED <<workers, ctr, apc, nextJob, mayFinish, served, doneJobs, unc, maxNow, njobsNow, started>>
+  /\ UNCHANGED <<workers, ctr, apc, nextJob, mayFinish, served, doneJobs, unc, maxNow, njobsNow, started, grewEarly>>
 
 TJobStart ==
   /\ IsEv("job_start")
@@ -102,7 +123,7 @@ TJobStart ==
      /\ wst' = [wst EXCEPT ![w] = "running"]
      /\ wjob' = [wjob EXCEPT ![w] = Ev.a]       \* bind the job identity here
      /\ served' = served \cup {Ev.a}
-  /\ UNCHANGED <<workers, ctr, queue, apc, nextJob, mayFinish, doneJobs, sentEarly, dropEarly, unc, maxNow, njobsNow>>
+  /\ UNCHANGED <<workers, ctr, queue, apc, nextJob, mayFinish, doneJobs, sentEarly, dropEarly, unc, maxNow, njobsNow, grewEarly>>
 
 TJobEnd ==
   /\ IsEv("job_end")
@@ -111,7 +132,7 @@ TJobEnd ==
      /\ wst' = [wst EXCEPT ![w] = "finished"]
      /\ doneJobs' = doneJobs \cup {Ev.a}
      /\ mayFinish' = mayFinish \cup {Ev.a}
-  /\ UNCHANGED <<workers, ctr, queue, wjob, apc, nextJob, served, sentEarly, dropEarly, unc, maxNow, njobsNow, started>>
+  /\ UNCHANGED <<workers, ctr, queue, wjob, apc, nextJob, served, sentEarly, dropEarly, unc, maxNow, njobsNow, started, grewEarly>>
 
 TWUncount ==
   /\ IsEv("w_uncount")
@@ -120,7 +141,7 @@ TWUncount ==
      /\ ctr' = ctr - 1 /\ ctr' = Ev.a
      /\ wst' = [wst EXCEPT ![w] = "recv"] /\ wjob' = [wjob EXCEPT ![w] = 0]
   /\ unc' = unc + 1
-  /\ UNCHANGED <<workers, queue, apc, nextJob, mayFinish, served, doneJobs, sentEarly, dropEarly, maxNow, njobsNow, started>>
+  /\ UNCHANGED <<workers, queue, apc, nextJob, mayFinish, served, doneJobs, sentEarly, dropEarly, maxNow, njobsNow, started, grewEarly>>
 
 TDropSend ==
   /\ IsEv("drop_send")
@@ -128,7 +149,7 @@ TDropSend ==
   /\ Ev.b = workers
   /\ IF dropEarly THEN UNCHANGED queue ELSE queue' = queue \o [i \in 1..workers |-> 0]
   /\ apc' = "dropping" /\ dropEarly' = FALSE
-  /\ UNCHANGED <<workers, ctr, wst, wjob, nextJob, mayFinish, served, doneJobs, sentEarly, unc, maxNow, njobsNow, started>>
+  /\ UNCHANGED <<workers, ctr, wst, wjob, nextJob, mayFinish, served, doneJobs, sentEarly, unc, maxNow, njobsNow, started, grewEarly>>
 
 TDropJoined ==
   /\ IsEv("drop_joined")
@@ -136,12 +157,13 @@ TDropJoined ==
   /\ \A w \in 1..workers : wst[w] = "dead"
   /\ doneJobs = 1..njobsNow                      \* drop returns only after every accepted job has finished
   /\ apc' = "dropped"
-  /\ UNCHANGED <<workers, ctr, queue, wst, wjob, nextJob, mayFinish, served, doneJobs, sentEarly, dropEarly, unc, maxNow, njobsNow, started>>
+  /\ UNCHANGED <<workers, ctr, queue, wst, wjob, nextJob, mayFinish, served, doneJobs, sentEarly, dropEarly, unc, maxNow, njobsNow, started, grewEarly>>
 
 TraceInit ==
   /\ PInit /\ l = 1 /\ sentEarly = FALSE /\ dropEarly = FALSE /\ unc = 0 /\ maxNow = Max /\ njobsNow = NJobs /\ started = {}
+  /\ grewEarly = FALSE
 
-TraceNext == TReset \/ TAccCount \/ TAccSend \/ TAccDecide \/ TWRecv \/ TJobStart \/ TJobEnd \/ TWUncount \/ TDropSend \/ TDropJoined
+TraceNext == TReset \/ TAccCount \/ TAccSend \/ TAccDecide \/ TWRecv \/ TWRecvNew \/ TJobStart \/ TJobEnd \/ TWUncount \/ TDropSend \/ TDropJoined
 
 TraceSpec == TraceInit /\ [][TraceNext]_tvars
 
